@@ -21,7 +21,7 @@ def run(p):
     return p, r.returncode, lines
 bad_silent = good_alarm = 0
 for d in dirs:
-    d = os.path.abspath(d); name = os.path.basename(d.rstrip("/")); own = name.replace("f5_", "").split("-")[0]
+    d = os.path.abspath(d); name = os.path.basename(d.rstrip("/")); own = name.split("_")[-1].split("-")[0]
     for variant in ("good", "bad"):
         pd = "%s/%s/patch.diff" % (d, variant)
         if not os.path.exists(pd): continue
